@@ -22,19 +22,39 @@ use crate::{
     state::{common, random::Random},
     Component, State,
 };
-use whole_run_native::{sphere, Sphere};
+use whole_run_native::sphere;
+use crate::{problems::{LimitedVectorProblem, ObjectiveFunction, Problem, VectorProblem}, SingleObjective};
 
-type S = Sphere;
+/// the sphere of the whole-run harness scaled by `SCALE_EXP` powers of ten (tiny objective values: improvements far below
+/// f64::EPSILON in absolute terms must still count as improvements)
+pub struct ScaledSphere<const SCALE_EXP: i32>;
+fn scaled<const E: i32>(x: &[f64]) -> f64 { sphere(x) * 10f64.powi(E) }
+impl<const E: i32> Problem for ScaledSphere<E> {
+    type Encoding = Vec<f64>;
+    type Objective = SingleObjective;
+    fn name(&self) -> &str { "ScaledSphere" }
+}
+impl<const E: i32> VectorProblem for ScaledSphere<E> {
+    type Element = f64;
+    fn dimension(&self) -> usize { 3 }
+}
+impl<const E: i32> LimitedVectorProblem for ScaledSphere<E> {
+    fn domain(&self) -> Vec<std::ops::Range<f64>> { vec![-5.0..5.0; 3] }
+}
+impl<const E: i32> ObjectiveFunction for ScaledSphere<E> {
+    fn objective(&self, s: &Vec<f64>) -> SingleObjective { SingleObjective::try_from(scaled::<E>(s)).unwrap() }
+}
+
 macro_rules! fail { ($p:expr, $($t:tt)*) => {{ let m = format!($($t)*); if $p.failures.len() < 3 { $p.failures.push(m); } }} }
 #[derive(Default)]
 struct Probe { xs_before: Vec<Vec<f64>>, vs_before: Vec<Vec<f64>>, weight_before: f64, history_min: Vec<f64>, bests_before: Vec<f64>, failures: Vec<String>, updates: u64 }
 
-fn positions(state: &State<S>) -> Vec<Vec<f64>> { state.populations().current().iter().map(|i| i.solution().clone()).collect() }
+fn positions<const E: i32>(state: &State<ScaledSphere<E>>) -> Vec<Vec<f64>> { state.populations().current().iter().map(|i| i.solution().clone()).collect() }
 
-fn one_run(seed: u64, start_w: f64, end_w: f64, c1: f64, c2: f64, v_max: f64, n: u32, particles: u32) -> (Vec<String>, u64) {
+fn one_run<const E: i32>(seed: u64, start_w: f64, end_w: f64, c1: f64, c2: f64, v_max: f64, n: u32, particles: u32) -> (Vec<String>, u64) {
     let probe = Arc::new(Mutex::new(Probe::default()));
     let (p1, p2, p3, p4, p5) = (probe.clone(), probe.clone(), probe.clone(), probe.clone(), probe.clone());
-    let particle_update = Configuration::<S>::builder()
+    let particle_update = Configuration::<ScaledSphere<E>>::builder()
         .debug(move |_, state| {
             let mut p = p1.lock().unwrap();
             p.xs_before = positions(state);
@@ -61,7 +81,7 @@ fn one_run(seed: u64, start_w: f64, end_w: f64, c1: f64, c2: f64, v_max: f64, n:
             if state.populations().current().iter().any(|i| i.is_evaluated()) { fail!(p, "a moved particle still carries an objective value") }
         })
         .build_component();
-    let inertia = Configuration::<S>::builder()
+    let inertia = Configuration::<ScaledSphere<E>>::builder()
         .do_(mapping::Linear::new(start_w, end_w, ValueOf::<common::Progress<ValueOf<common::Iterations>>>::new(), ValueOf::<InertiaWeight<ParticleVelocitiesUpdate>>::new()))
         .debug(move |_, state| {
             let mut p = p3.lock().unwrap();
@@ -70,10 +90,10 @@ fn one_run(seed: u64, start_w: f64, end_w: f64, c1: f64, c2: f64, v_max: f64, n:
             if w != (end_w - start_w) * progress + start_w { fail!(p, "inertia weight {w} is not the interpolation between {start_w} and {end_w} at progress {progress}") }
         })
         .build_component();
-    let state_update = Configuration::<S>::builder()
+    let state_update = Configuration::<ScaledSphere<E>>::builder()
         .debug(move |_, state| {
             let mut p = p4.lock().unwrap();
-            p.bests_before = state.borrow_value::<BestParticles<S, Global>>().iter().map(|b| b.objective().value()).collect();
+            p.bests_before = state.borrow_value::<BestParticles<ScaledSphere<E>, Global>>().iter().map(|b| b.objective().value()).collect();
         })
         .do_(ParticleSwarmUpdate::new())
         .debug(move |_, state| {
@@ -81,15 +101,15 @@ fn one_run(seed: u64, start_w: f64, end_w: f64, c1: f64, c2: f64, v_max: f64, n:
             let cur: Vec<f64> = state.populations().current().iter().map(|i| i.objective().value()).collect();
             if p.history_min.is_empty() { p.history_min = p.bests_before.clone(); }
             for (h, c) in p.history_min.iter_mut().zip(&cur) { if *c < *h { *h = *c } }
-            let bests = state.borrow_value::<BestParticles<S, Global>>();
+            let bests = state.borrow_value::<BestParticles<ScaledSphere<E>, Global>>();
             if bests.len() != cur.len() { fail!(p, "{} personal bests for {} particles", bests.len(), cur.len()); return }
             for k in 0..cur.len() {
                 let b = bests[k].objective().value();
                 if b > p.bests_before[k] { fail!(p, "personal best of particle {k} got worse: {} -> {b}", p.bests_before[k]) }
                 if b != p.history_min[k] { fail!(p, "personal best of particle {k} is {b} but the best value it has been evaluated at is {}", p.history_min[k]) }
-                if b != sphere(bests[k].solution()) { fail!(p, "personal best of particle {k} carries {b} but f(position) = {}", sphere(bests[k].solution())) }
+                if b != scaled::<E>(bests[k].solution()) { fail!(p, "personal best of particle {k} carries {b} but f(position) = {}", scaled::<E>(bests[k].solution())) }
             }
-            let g = state.borrow_value::<BestParticle<S, Global>>();
+            let g = state.borrow_value::<BestParticle<ScaledSphere<E>, Global>>();
             let best_personal = bests.iter().map(|b| b.objective().value()).fold(f64::INFINITY, f64::min);
             match g.as_ref() {
                 None => fail!(p, "no global best although particles have been evaluated"),
@@ -97,17 +117,17 @@ fn one_run(seed: u64, start_w: f64, end_w: f64, c1: f64, c2: f64, v_max: f64, n:
             }
         })
         .build_component();
-    let config = Configuration::<S>::builder()
+    let config = Configuration::<ScaledSphere<E>>::builder()
         .do_(initialization::RandomSpread::new(particles))
         .evaluate()
         .update_best_individual()
-        .do_(pso::pso::<S, Global>(pso::Parameters {
+        .do_(pso::pso::<ScaledSphere<E>, Global>(pso::Parameters {
             particle_init: ParticleSwarmInit::new(v_max).unwrap(),
             particle_update, constraints: boundary::Saturation::new(), inertia_weight_update: Some(inertia), state_update,
         }, LessThanN::iterations(n)))
         .build();
-    let problem = Sphere { returned: Mutex::new(Vec::new()) };
-    let r = config.optimize_with(&problem, |state| { state.insert_evaluator(Sequential::<S>::new()); state.insert(Random::new(seed)); Ok(()) });
+    let problem = ScaledSphere::<E>;
+    let r = config.optimize_with(&problem, |state| { state.insert_evaluator(Sequential::<ScaledSphere<E>>::new()); state.insert(Random::new(seed)); Ok(()) });
     let mut p = probe.lock().unwrap();
     if let Err(e) = &r { fail!(p, "the PSO run failed: {e:#}"); }
     (p.failures.clone(), p.updates)
@@ -117,15 +137,15 @@ fn one_run(seed: u64, start_w: f64, end_w: f64, c1: f64, c2: f64, v_max: f64, n:
 pub fn c18_native_swarm() {
     let mut cases = 0u64;
     for seed in 0..4u64 {
-        for (sw, ew, c1, c2, vm, particles) in [(0.9, 0.4, 1.0, 1.5, 1.0, 6u32), (0.9, 0.4, 0.0, 0.0, 0.5, 4), (1.2, 0.2, 2.0, 2.0, 0.25, 1), (0.4, 0.9, 0.5, 0.5, 1.0, 3), (0.7, 0.7, 0.0, 0.0, 1.0, 2)] {
-            let (failures, updates) = one_run(seed, sw, ew, c1, c2, vm, 12, particles);
-            if updates != 12 { eprintln!("COUNTEREXAMPLE seed={seed} weights {sw}->{ew} c1={c1} c2={c2} v_max={vm}: {updates} swarm updates observed in 12 iterations"); panic!("swarm invariant violated") }
+        for tiny in [false, true] { for (sw, ew, c1, c2, vm, particles) in [(0.9, 0.4, 1.0, 1.5, 1.0, 6u32), (0.9, 0.4, 0.0, 0.0, 0.5, 4), (1.2, 0.2, 2.0, 2.0, 0.25, 1), (0.4, 0.9, 0.5, 0.5, 1.0, 3), (0.7, 0.7, 0.0, 0.0, 1.0, 2)] {
+            let (failures, updates) = if tiny { one_run::<-18>(seed, sw, ew, c1, c2, vm, 12, particles) } else { one_run::<0>(seed, sw, ew, c1, c2, vm, 12, particles) };
+            if updates != 12 { eprintln!("COUNTEREXAMPLE seed={seed} objective_scale={} weights {sw}->{ew} c1={c1} c2={c2} v_max={vm}: {updates} swarm updates observed in 12 iterations", if tiny { "1e-18" } else { "1" }); panic!("swarm invariant violated") }
             if !failures.is_empty() {
-                for f in &failures { eprintln!("COUNTEREXAMPLE seed={seed} weights {sw}->{ew} c1={c1} c2={c2} v_max={vm} particles={particles}: {f}"); }
+                for f in &failures { eprintln!("COUNTEREXAMPLE seed={seed} objective_scale={} weights {sw}->{ew} c1={c1} c2={c2} v_max={vm} particles={particles}: {f}", if tiny { "1e-18" } else { "1" }); }
                 panic!("swarm invariant violated");
             }
             cases += 1;
-        }
+        } }
     }
     println!("c18_native_swarm: {} probed runs (12 iterations each) checked", cases);
 }
